@@ -259,11 +259,14 @@ type oddS struct {
 
 func goShapedUnique(res *CaseResult, src string, c any) {
 	one, uno := 1, 1
+	green := "green"
 	pool := []any{
 		oddS{A: 1}, oddS{A: 1, Hidden: 2}, oddS{A: 1, priv: 3}, oddS{A: 2}, oddS{A: 1, B: "b"}, &oddS{A: 1}, oddS{A: 1, P: &one}, oddS{A: 1, P: &uno},
 		oddS{A: 1, M: map[string]any{}}, oddS{A: 1, M: map[string]any{"k": oddS{Hidden: 1}}}, oddS{A: 1, M: map[string]any{"k": oddS{Hidden: 2}}},
 		struct{ X float64 }{1}, struct{ X int }{1}, struct{ X any }{1.0}, struct{ X any }{json.Number("1")},
 		map[string]any{"k": []any{oddS{A: 1}}}, map[string]any{"k": []any{oddS{A: 1, Hidden: 9}}}, []oddS{{A: 1}}, []any{oddS{A: 1, Hidden: 7}},
+		// JSON scalars in the representations a Schema LITERAL may hold in Enum / Const (named types, pointers)
+		"green", abs.NamedStr("green"), &green, "plain", abs.NamedStr("plain"), json.Number("1"), 1.0, int8(1), "1", abs.NamedStr("1"),
 	}
 	uniq := &jsonschema.Schema{UniqueItems: true}
 	urs, err := uniq.Resolve(nil)
@@ -283,6 +286,22 @@ func goShapedUnique(res *CaseResult, src string, c any) {
 				res.Evals++
 				if got := urs.Validate([]any{x, y}) == nil; got != !eq {
 					report("uniqueItems on [x, y]", got, !eq)
+					return
+				}
+			}
+			// enum lists that MIX representations: a plain string next to the value under test
+			for kw, sch := range map[string]*jsonschema.Schema{"enum [\"plain\", x] on y": {Enum: []any{"plain", x}}, "enum [x, \"plain\", 2] on y": {Enum: []any{x, "plain", 2.0}}} {
+				if isStructValue(x) || isStructValue(y) {
+					continue // Validate refuses a struct handed to it directly (also behind pointers)
+				}
+				rs, err := sch.Resolve(nil)
+				if err != nil {
+					continue
+				}
+				want := eq || jsonschema.Equal("plain", y) || (strings.HasSuffix(kw, "2] on y") && jsonschema.Equal(2.0, y))
+				res.Evals++
+				if got := rs.Validate(y) == nil; got != want {
+					report(kw, got, want)
 					return
 				}
 			}
@@ -398,4 +417,15 @@ func runRepVal(hdr Header, c any, src string) CaseResult {
 	res.Nontrivial = sawT && sawF
 	res.Sample = map[string]any{"schema": json.RawMessage(text), "instances": len(exp)}
 	return res
+}
+
+func isStructValue(x any) bool {
+	v := reflect.ValueOf(x)
+	for v.IsValid() && (v.Kind() == reflect.Pointer || v.Kind() == reflect.Interface) {
+		if v.IsNil() {
+			return false
+		}
+		v = v.Elem()
+	}
+	return v.IsValid() && v.Kind() == reflect.Struct
 }
